@@ -1145,9 +1145,20 @@ pub fn run(seed: u64, n: usize, tier: &str, out: &mut dyn Write) {
     writeln!(out, "STATS {{{}}}", all.join(",")).unwrap();
 }
 
+/// one watchdog for the whole process (replays run thousands of cases; a thread per case would
+/// exhaust the thread limit under load)
+fn shared_watch() -> Arc<Watch> {
+    static W: std::sync::OnceLock<Arc<Watch>> = std::sync::OnceLock::new();
+    W.get_or_init(|| {
+        let w = Arc::new(Watch { cur: Mutex::new((String::new(), vec![])), tick: AtomicU64::new(0) });
+        start_watchdog(w.clone());
+        w
+    })
+    .clone()
+}
+
 fn case_fails(c: &Case) -> Vec<(String, String)> {
-    let w = Arc::new(Watch { cur: Mutex::new((String::new(), vec![])), tick: AtomicU64::new(0) });
-    start_watchdog(w.clone());
+    let w = shared_watch();
     let ty = c.get("type").unwrap_or("?");
     let mut out = vec![];
     if let Some(t) = TYPES.iter().find(|t| t.name == ty) {
